@@ -400,3 +400,8 @@ theorem cut_spec (s : State) (hi : Inv s) (count : Nat) (hc : count ≤ s.stack.
         · exact hi.slots e (List.mem_of_mem_drop he)
 
 end Fancy
+
+namespace Fancy
+theorem abs_stack_length_eq (s : State) : (abs s).stack.length = s.stack.length := by
+  simp [abs, absStack_length]
+end Fancy
